@@ -14,7 +14,7 @@ import (
 func init() {
 	register(&Prop{
 		ID:          "C13",
-		Explanation: "Decides the error discipline around the session store: every call site in production code of a store-family operation (SessionStore, persistence.Store, redis Client, Lock, SessionState lock helpers, redislock, go-redis commands, the ticket's save/load/clear function values, and every module function that returns such an error) is enumerated; where the enclosing function returns an error the store error is returned or turned into a non-nil error on every path on which it is not known to be nil (the lock retry loop and the refresh-then-validate policy are the two reviewed, structurally checked exceptions), elsewhere it is examined by a branch on every path; Manager.Save sets the ticket cookie only after saveSession returned nil; SignIn and OAuthCallback redirect only after SaveSession returned nil; the readiness endpoint writes 200 only after VerifyConnection returned nil and that error is passed up unchanged from Client.Ping; every Cipher.Decrypt slices its input only under a dominating length guard for the same bound. Added during the build: a failed or empty reload under the refresh lock ends the session (R6, shared with C12); sign-out answers success only after the delete succeeded (R7, shared with C11.R1); in store/persistence/encoding/encryption/middleware code a fallible call's pointer result is dereferenced only behind its err==nil edge (R8). Round 3: every VerifyConnection of a store with a connection returns the result of a probe made during that call (under R4); an error answer of a handler is final (R9). Round 5: a store or decoding function whose caller dereferences the result after checking only the error never returns (nil, nil) (R10).",
+		Explanation: "Decides the error discipline around the session store: every call site in production code of a store-family operation (SessionStore, persistence.Store, redis Client, Lock, SessionState lock helpers, redislock, go-redis commands, the ticket's save/load/clear function values, and every module function that returns such an error) is enumerated; where the enclosing function returns an error the store error is returned or turned into a non-nil error on every path on which it is not known to be nil (the lock retry loop and the refresh-then-validate policy are the two reviewed, structurally checked exceptions), elsewhere it is examined by a branch on every path; Manager.Save sets the ticket cookie only after saveSession returned nil; SignIn and OAuthCallback redirect only after SaveSession returned nil; the readiness endpoint writes 200 only after VerifyConnection returned nil and that error is passed up unchanged from Client.Ping; every Cipher.Decrypt slices its input only under a dominating length guard for the same bound. Added during the build: a failed or empty reload under the refresh lock ends the session (R6, shared with C12); sign-out answers success only after the delete succeeded (R7, shared with C11.R1); in store/persistence/encoding/encryption/middleware code a fallible call's pointer result is dereferenced only behind its err==nil edge (R8). Round 3: every VerifyConnection of a store with a connection returns the result of a probe made during that call (under R4); an error answer of a handler is final (R9). Round 5: a store or decoding function whose caller dereferences the result after checking only the error never returns (nil, nil) (R10). Round 7: request handling keeps no state of its own between requests — no store, map update, in-place builtin, atomic/sync.Map write or pointer-receiver library call (singleflight, caches) reached from ServeHTTP targets a package-level variable, an object built at start-up, or a constructor variable captured by the handler it returned, declared in the packages implementing this property (RS; a class-wide who-may-write rule with zero instances today: a correct memoisation would be reported until reviewed). The proxy's three store wrappers (ClearSessionCookie, SaveSession, LoadCookiedSession) hand back the result of the store call made on that path, on every path (R11); P11 under the panic-source scan.",
 		NotDecided:  "fault sequences (lost replies, pairs of faults), behaviour of msgpack/lz4 on corrupt bytes, time-outs.",
 		Run:         runC13,
 	})
@@ -119,6 +119,8 @@ func runC13(c *Ctx) {
 	r.Rule("R6-reload-under-lock", "a failed or empty reload under the refresh lock ends the request's session (shared with C12.R2/R5): refresh only after a successful reload; errors mean no session and a cleared store session", 3)
 	r.Rule("R7-sign-out", "sign-out answers success only after the store delete succeeded (shared with C11.R1)", 2)
 	r.Rule("R8-result-before-errcheck", "in the session stores, persistence, session encoding and encryption code a fallible call's result is dereferenced only behind its err==nil edge (damaged stored data is an error, not a crash)", 8)
+	r.Rule("R11-store-wrappers-delegate", "ClearSessionCookie, SaveSession and LoadCookiedSession answer with the result of the store call made on that path, on every path (round 7)", 3)
+	runStoreWrappersDelegate(c, "R11-store-wrappers-delegate")
 	r.Rule("R10-value-or-error", "a store/decoding function whose caller dereferences the result after checking only the error never returns (nil, nil): empty or truncated stored data is an error, not a missing value", 3)
 	r.Rule("R9-single-answer", "in every handler of the proxy an error answer (ErrorPage, http.Error, errorJSON) is final: no status, redirect, page or upstream hand-off follows it on any path", 8)
 	r.Rule("R5-decrypt-bounds", "every Cipher.Decrypt slices its input only under a length guard for the same bound", 3)
@@ -610,5 +612,51 @@ func runVerifyChain(c *Ctx, rule string) {
 	}
 	if n == 0 {
 		c.R.Unknown(rule, "probe|none", "-", "no VerifyConnection implementation with a connection found")
+	}
+}
+
+// runStoreWrappersDelegate (round 7; C13.R11, C11.R10): the handlers reach the session store through three one-line
+// methods of the proxy (ClearSessionCookie, SaveSession, LoadCookiedSession). Each of them answers, on every path, with
+// the result of the store call made on that path: a wrapper that answers nil without asking the store ("already cleared
+// by the loader", "nothing to save") reports success for an operation that may have failed or never happened — the
+// sign-out handler then redirects while the stored session is still there.
+func runStoreWrappersDelegate(c *Ctx, rule string) {
+	for _, w := range []struct{ fn, method string }{
+		{"(*main.OAuthProxy).ClearSessionCookie", "Clear"},
+		{"(*main.OAuthProxy).SaveSession", "Save"},
+		{"(*main.OAuthProxy).LoadCookiedSession", "Load"},
+	} {
+		fn := c.Fn(rule, w.fn)
+		m := c.Method(rule, "pkg/apis/sessions.SessionStore."+w.method)
+		if fn == nil || m == nil {
+			continue
+		}
+		key := "delegates|" + fnKey(fn)
+		bad := false
+		n := 0
+		c.Walk(rule, fn, func(p *walk.Path) {
+			if _, ok := p.Exit.(*ssa.Return); !ok {
+				return
+			}
+			n++
+			nres := fn.Signature.Results().Len()
+			ret, ok := p.ReturnDV(nres - 1)
+			calls := p.Find(walk.Invoke(c.P, m), p.End())
+			good := false
+			if ok {
+				for _, cl := range calls {
+					if ResultIs(p, ret, cl, nres-1) || (nres == 1 && sameValueOrSlot(p, ret, cl.DV())) {
+						good = true
+					}
+				}
+			}
+			if !good && !bad {
+				bad = true
+				c.bad(rule, key, p.Exit, sprintf("%s can return without handing back the result of sessionStore.%s made on that path: the caller takes the answer for the store's and acts on a success the store never reported", prog.Name(fn), w.method), p, p.End())
+			}
+		})
+		if n > 0 && !bad {
+			c.R.OK(rule, key, c.P.Pos(fn.Pos()), "every return hands back sessionStore."+w.method+"'s result")
+		}
 	}
 }
